@@ -155,9 +155,19 @@ def run_shard(ctx: ShardCtx) -> ShardResult:
                         h = mutate(ctx.rng, h)
                     headers.append(h)
                 # each shard takes a slice of the headers (grid is covered exhaustively across shards)
-                headers = [h for i, h in enumerate(headers) if i % ctx.nshards == ctx.shard or h is None]
+                n_fixed = len([None] + grid(L) + MALFORMED)
+                fixed = [h for i, h in enumerate(headers[:n_fixed]) if i % ctx.nshards == ctx.shard or h is None]
+                headers = fixed + [h for i, h in enumerate(headers[n_fixed:]) if i % ctx.nshards == ctx.shard]
+                n_fixed = len(fixed)
             res.count('route.' + ('odvod' if mandatory else 'segment'))
-            for h in headers:
+            # every URL gets the whole boundary grid; the mutated headers share the time budget evenly
+            # between the URLs (so that no route is starved when the budget is short)
+            import time as _time
+            url_deadline = ctx.t0 + ctx.budget_s * (ui + 1) / max(1, len(urls))
+            for hi, h in enumerate(headers):
+                if url_deadline is not None and ui not in plan and hi >= n_fixed and _time.monotonic() > url_deadline:
+                    res.count('mutated_headers.skipped_for_time', len(headers) - hi)
+                    break
                 if h is not None:
                     try:
                         h.encode('latin-1')
@@ -186,9 +196,6 @@ def run_shard(ctx: ShardCtx) -> ShardResult:
                     mech, msg = problem
                     res.violation(mech, f'{msg} url={target["url"]}',
                                   {'target': target, 'header': h}, exception=env.rec.last_exception)
-            if ctx.out_of_time():
-                res.notes.append('URL list cut short by time budget')
-                break
         reach.report(res)
     finally:
         env.close()
